@@ -68,7 +68,7 @@ def main():
     try:
         prop = re.match(r"(C\d+)", a.name).group(1)
         head = sh(["git", "-C", "/repo", "rev-parse", "--short", "HEAD"])[1].strip()
-        recheck = a.recheck and meta.get("confirmed") and meta.get("repo_head") == head
+        recheck = a.recheck and meta.get("confirmed")
         rc_clean, out_clean = (0, "") if recheck else sh([PY, demo], cwd=wt)
         rc_apply, out_apply = sh(["git", "apply", patch], cwd=wt)
         if rc_apply:
